@@ -20,7 +20,7 @@ LEVEL_TEXT = ('Exploration: lists of 0-5 documents drawn from pools rich in boun
               'both back-ends and read back by both back-ends; the monitor demands exactly n documents, each equal to its input '
               '(ref.bisim / node signature / event relation), and - through an instrumented output stream - that the text written '
               'up to each flush, and the text of every prefix list of documents (minus an optional closing "..."), is a prefix of '
-              'what is written for the whole list.')
+              'what is written for the whole list.' + " Emit-level documents carry per-document redefinitions of '!' and '!!' followed by directive-less documents that use those handles.")
 LEVEL_NOTE = 'Held on the document lists generated.'
 TECHNIQUE = 'runtime monitoring: boundary oracle (count + per-document equality at three API levels) + instrumented output stream for prefix stability'
 DESIGN_REF = 'DESIGN.md section 3, C12'
